@@ -41,6 +41,8 @@ pub fn elem_exprs() -> Vec<Value> {
         json!({"reduce": [[1, 2], {"+": [{"var": "current"}, {"var": "accumulator"}]}, 0]}),
         json!({"var": "0"}), json!({"var": 0}), json!({"merge": [{"var": ""}, {"var": ""}]}), json!({"and": [{"var": ""}, "x"]}),
         json!({"var": ["outer", "dflt"]}), json!({"missing": ["outer", "current"]}),
+        // an error one lazy level below the expression root (raised only while the expression is evaluated)
+        json!({"and": [{"==": [{"var": ""}]}]}), json!({"if": [{"!": [1, 2]}]}), json!({"or": [0, {"+": ["x"]}]}),
     ]
 }
 
@@ -284,6 +286,28 @@ pub fn run(ctx: &mut Ctx) {
             }
         }
     }
+    // rows of equal byte length (33, 40, 64, 65 bytes) that differ at one end only, with expressions that
+    // index into the element
+    for len in [33usize, 40, 64, 65] {
+        if !ctx.mine() {
+            continue;
+        }
+        let row = |first: char, last: char| -> String { format!("{}{}{}", first, "-".repeat(len - 2), last) };
+        let rows: Vec<Value> = vec![json!(row('A', 'a')), json!(row('B', 'b')), json!(row('C', 'c')), json!(row('D', 'd'))];
+        let recs: Vec<Value> = rows.iter().map(|r| json!({"name": r, "tags": [r]})).collect();
+        let dd = json!({"rows": rows, "recs": recs});
+        for b in [json!({"var": 0}), json!({"var": -1}), json!({"cat": [{"var": 0}, {"var": -1}]}), json!({"substr": [{"var": ""}, -1]}), json!({"==": [{"var": 0}, "C"]})] {
+            ctx.edge();
+            ctx.check("map:long-rows", &json!({"map": [{"var": "rows"}, b]}), &dd);
+            ctx.check("filter:long-rows", &json!({"filter": [{"var": "rows"}, b]}), &dd);
+        }
+        for b in [json!({"var": "name.0"}), json!({"var": "tags.0.-1"}), json!({"map": [{"var": "tags"}, {"var": 0}]})] {
+            ctx.edge();
+            ctx.check("map:long-rows:records", &json!({"map": [{"var": "recs"}, b]}), &dd);
+        }
+        ctx.check("reduce:long-rows", &json!({"reduce": [{"var": "rows"}, {"cat": [{"var": "accumulator"}, {"var": "current.0"}, {"var": "current.-1"}]}, ""]}), &dd);
+        ctx.check("reduce:long-rows:acc-index", &json!({"reduce": [{"var": "rows"}, {"cat": [{"var": "accumulator.0"}, {"var": "current"}]}, ""]}), &dd);
+    }
     // null and non-array collections
     if ctx.mine() {
         let noncolls = vec![json!(null), json!("abc"), json!(5), json!(true), json!({}), json!({"a": 1}), json!(""), json!(0), json!(false)];
@@ -318,4 +342,6 @@ pub fn run(ctx: &mut Ctx) {
         }
     }
     crate::spaces::render_probes(ctx, &["map", "filter", "reduce"]);
+    crate::spaces::width_probes(ctx);
+    crate::spaces::nested_iteration_probes(ctx);
 }
